@@ -489,4 +489,164 @@ Section Reals.
       split; [exact HF|]. eapply Forall2_map_eq; [|exact HF]. intros x y (H & _). exact H.
     Qed.
   End AdaFamily.
+
+  (* ================================================================ from start_preconditioning_step on: norm transfer *)
+  (* The search direction of a step t >= start with a grafting method is (decay and momentum applied to) k * P_shampoo
+     with k = ||P_graft|| / (||P_shampoo|| + 1e-16) >= 0: Shampoo's direction, with the grafted method's norm up to the
+     factor ||P_shampoo|| / (||P_shampoo|| + 1e-16). *)
+  Theorem graft_norm_transfer_step (c : cfg (F:=R)) t h dims answers w st g0 :
+    (c_start c <= t)%Z -> c_graft c <> GNone ->
+    let Ps := shampoo_dir RO c t h dims answers w st g0 in
+    let Pg := graft_dir RO c t h dims answers w st g0 in
+    let k := norm2 RO Pg / (norm2 RO Ps + graft_eps RO) in
+    block_direction RO c t h dims answers w st g0 = fst (momentum_step RO c (s_mom st) (decay_dir RO c w (vscale RO k Ps)))
+    /\ 0 <= k
+    /\ norm2 RO (vscale RO k Ps) = norm2 RO Pg * (norm2 RO Ps / (norm2 RO Ps + graft_eps RO)).
+  Proof.
+    intros Ht Hg. cbn zeta. split; [|apply (graft_norm_transfer rnd)].
+    unfold block_direction, shampoo_dir, graft_dir, step_pre, decay_dir.
+    assert (U : use_grafting_method c t = false).
+    { unfold use_grafting_method. destruct (Z.ltb_spec t (c_start c)); [lia|reflexivity]. }
+    rewrite U.
+    destruct (if perform_amortized c t then _ else _) as [[invs dg] qs].
+    destruct (filter_grad RO c t h (s_filt st) (l2_grad RO c w g0)) as [ghat filt]. cbn [s_graft].
+    destruct (c_graft c) eqn:E; [contradiction| |]; reflexivity.
+  Qed.
+
+  (* without decoupled decay and momentum the parameter delta is -lr * k * P_shampoo *)
+  Corollary graft_norm_transfer_plain (c : cfg (F:=R)) t h dims answers w st g0 :
+    (c_start c <= t)%Z -> c_graft c <> GNone -> c_mom c = 0 -> (c_decoupled c = false \/ c_wd c = 0) ->
+    let Ps := shampoo_dir RO c t h dims answers w st g0 in
+    let Pg := graft_dir RO c t h dims answers w st g0 in
+    let k := norm2 RO Pg / (norm2 RO Ps + graft_eps RO) in
+    block_direction RO c t h dims answers w st g0 = vscale RO k Ps
+    /\ 0 <= k
+    /\ norm2 RO (block_direction RO c t h dims answers w st g0) = norm2 RO Pg * (norm2 RO Ps / (norm2 RO Ps + graft_eps RO)).
+  Proof.
+    intros Ht Hg Hm Hwd. cbn zeta.
+    destruct (graft_norm_transfer_step c t h dims answers w st g0 Ht Hg) as (H1 & H2 & H3). cbn zeta in H1, H2, H3.
+    rewrite momentum_step_zero in H1 by exact Hm. rewrite decay_coupled in H1 by exact Hwd. cbn [fst] in H1.
+    split; [exact H1|]. split; [exact H2|]. rewrite H1. exact H3.
+  Qed.
+
+  (* in warm-up the direction of the step (before decay / momentum) IS the grafted method's direction *)
+  Lemma warmup_direction_is_graft (c : cfg (F:=R)) t h dims answers w st g0 :
+    use_grafting_method c t = true ->
+    block_direction RO c t h dims answers w st g0
+    = fst (momentum_step RO c (s_mom st) (decay_dir RO c w (graft_dir RO c t h dims answers w st g0))).
+  Proof.
+    intros U. unfold block_direction, graft_dir, step_pre, decay_dir. rewrite U.
+    destruct (if perform_amortized c t then _ else _) as [[invs dg] qs].
+    destruct (filter_grad RO c t h (s_filt st) (l2_grad RO c w g0)) as [ghat filt]. reflexivity.
+  Qed.
+
+  (* the second-moment accumulators stay non-negative (so sqrt is the real square root everywhere above) *)
+  Lemma ema_sq_nonneg b2 : 0 <= b2 <= 1 -> forall v x, Forall (fun a => 0 <= a) v -> Forall (fun a => 0 <= a) (ema_sq RO b2 v x).
+  Proof.
+    intros Hb v x Hv. rewrite ema_sq_spec. destruct (Reqb b2 1).
+    - revert x. induction Hv as [|a v Ha Hv IH]; intros [|b x]; cbn [map2]; constructor; [|apply IH].
+      pose proof (Rle_0_sqr b) as Hs. unfold Rsqr in Hs. lra.
+    - revert x. induction Hv as [|a v Ha Hv IH]; intros [|b x]; cbn [map2]; constructor; [|apply IH].
+      pose proof (Rle_0_sqr b) as Hs. unfold Rsqr in Hs. nra.
+  Qed.
 End Reals.
+
+(* ------------------------------------------------------------------ the dampening guard is necessary; non-vacuity *)
+Section Witnesses.
+  Open Scope R_scope.
+  Local Notation RI := (R_ops (fun x : R => x)).
+
+  (* lr 1, no gradient filter unless b1 <> 0, start_preconditioning_step 10 *)
+  Definition demo_cfg (b1 mom damp wd : R) (decoupled : bool) (g : graft_kind (F:=R)) : cfg (F:=R) :=
+    mkCfg 1 b1 1 b1 1 mom damp wd 1%Z 10%Z false true decoupled g KShampoo [] (OvInt 0%Z) 1.
+  Definition demo_state (graft filt mom : list R) : bstate (F:=R) := mkS [[[0]]] [[[0]]] [true] [] graft filt mom.
+  Definition no_hints : hints (F:=R) := mkH 1 1 1.
+
+  Lemma nz_true x : x <> 0 -> nz RI x = true.
+  Proof. intros H. apply (nz_R (fun x => x)). exact H. Qed.
+
+  (* With dampening d <> 0 the statement of [warmup_eq_sgd] is false: torch seeds the momentum buffer with the raw gradient,
+     Shampoo with (1 - d) times it.  Witness: one parameter 0, one gradient 1, momentum 1/2, dampening 1/2, lr 1:
+     Shampoo moves to -1/2, torch.optim.SGD(dampening=1/2) to -1. *)
+  Theorem warmup_sgd_dampening_refuted :
+    exists (c : cfg (F:=R)) dims n hist s ts,
+      sgd_cfg_nodamp c /\ sgd_corr c n s ts /\ hist_ok (warm_ev c n) (bs_t s) hist /\
+      map bs_w (sh_run RI c dims s hist) <> map sgd_w (run (sgd_step RI (sgd_hp_of (fun x => x) c)) ts (map grad_of hist)).
+  Proof.
+    exists (demo_cfg 0 (1/2) (1/2) 0 false GSGD), [1%nat], 1%nat, [Grad no_hints [] [1]],
+           (mkBs 0%Z [0] (demo_state [] [] [0])), (sgd_init [0]).
+    split; [|split; [|split]].
+    - unfold sgd_cfg_nodamp, demo_cfg. cbn. auto.
+    - unfold sgd_corr, sgd_init. cbn. auto.
+    - cbn. repeat split; lia.
+    - set (c := demo_cfg 0 (1/2) (1/2) 0 false GSGD).
+      cbn [sh_run run traj map grad_of skip_none sh_event bs_t bs_w bs_st].
+      pose proof (block_step_warmup RI c (0 + 1) no_hints [1%nat] [] [0] (demo_state [] [] [0]) [1] eq_refl) as W.
+      cbn zeta in W.
+      destruct (block_step RI c (0 + 1) no_hints [1%nat] [] [0] (demo_state [] [] [0]) [1]) as [[w' st'] qs].
+      cbn [fst snd] in W. destruct W as (W1 & _).
+      rewrite (l2_coupled (fun x => x)) in W1 by (right; reflexivity).
+      rewrite (filter_grad_beta1_zero (fun x => x)) in W1 by reflexivity. cbn [fst] in W1.
+      rewrite (decay_coupled (fun x => x)) in W1 by (right; reflexivity).
+      rewrite (momentum_step_spec (fun x => x)) in W1 by (cbn; lra).
+      unfold wd_grad, graft_precond in W1. cbn [c demo_cfg c_wd c_graft c_nesterov c_mom c_damp c_lr] in W1.
+      change (f0 RI) with 0 in W1. rewrite (nz_R_zero (fun x => x)) in W1.
+      cbn [demo_state s_mom map2 fst vaxpy rnd32 fneg fadd fmul R_ops] in W1.
+      unfold sgd_step, sgd_hp_of, sgd_init, wd_grad.
+      cbn [c demo_cfg c_wd c_nesterov c_mom c_damp c_lr sgd_lr sgd_mom sgd_damp sgd_wd sgd_nesterov sgd_w sgd_buf].
+      rewrite (nz_R_zero (fun x => x)). rewrite nz_true by lra.
+      cbn [vaxpy map2 fneg fadd fmul R_ops sgd_w bs_w map]. rewrite W1.
+      intros H. injection H as H. lra.
+  Qed.
+
+  (* Non-vacuity: the hypotheses of the five warm-up theorems hold on histories with idle steps, absent gradients (where
+     allowed) and several updates. *)
+  Example warmup_eq_sgd_hyps :
+    let c := demo_cfg 0 (1/2) 0 (1/4) false GSGD in
+    let s := mkBs 0%Z [1; -2] (demo_state [] [] [0; 0]) in
+    let hist := [Absent; Grad no_hints [] [1; 3]; Idle; Grad no_hints [] [-1; 1/2]] in
+    sgd_cfg c /\ sgd_corr c 2 s (sgd_init [1; -2]) /\ hist_ok (warm_ev c 2) (bs_t s) hist.
+  Proof. cbn. unfold sgd_cfg, sgd_cfg_nodamp, sgd_corr, warm_ev. cbn. repeat split; auto; lia. Qed.
+
+  Example warmup_eq_adam_hyps dec :
+    let c := demo_cfg (1/2) 0 0 (1/4) dec (GAda (3/4) (1/8) true) in
+    let s := mkBs 0%Z [1; -2] (demo_state [0; 0] [0; 0] []) in
+    let hist := [Grad (mkH (bc1_exact c 1) 1 (1 - (3/4) ^ 1)) [] [1; 3]; Idle; Grad (mkH (bc1_exact c 2) 1 (1 - (3/4) ^ 2)) [] [-1; 1/2]] in
+    adam_cfg c (3/4) (1/8) dec /\ adam_corr s (adam_init RI [1; -2]) /\ hist_ok (adam_ev c (3/4)) (bs_t s) hist.
+  Proof.
+    cbn zeta. split; [|split].
+    - unfold adam_cfg, demo_cfg. cbn. repeat split; auto; lra.
+    - unfold adam_corr, adam_init. cbn. auto.
+    - cbn [hist_ok next_t bs_t]. unfold adam_ev. cbn [next_t demo_cfg c_start h_bc1 h_bc2g].
+      repeat split; try lia; reflexivity.
+  Qed.
+
+  Example warmup_eq_rmsprop_hyps :
+    let c := demo_cfg 0 (1/2) 0 (1/4) false (GAda (3/4) (1/8) false) in
+    let s := mkBs 0%Z [1; -2] (demo_state [0; 0] [] [0; 0]) in
+    let hist := [Absent; Grad no_hints [] [1; 3]; Idle; Grad no_hints [] [-1; 1/2]] in
+    rmsprop_cfg c (3/4) (1/8) /\ rmsprop_corr c s (rmsprop_init RI [1; -2]) /\ hist_ok (plain_ev c) (bs_t s) hist.
+  Proof.
+    cbn zeta. split; [|split].
+    - unfold rmsprop_cfg, demo_cfg. cbn. repeat split; auto; lra.
+    - unfold rmsprop_corr, rmsprop_init. cbn. auto.
+    - cbn. unfold plain_ev. cbn. repeat split; lia.
+  Qed.
+
+  Example warmup_eq_adagrad_hyps :
+    let c := demo_cfg 0 0 0 (1/4) false (GAda 1 (1/8) false) in
+    let s := mkBs 0%Z [1; -2] (demo_state [0; 0] [] []) in
+    let hist := [Absent; Grad no_hints [] [1; 3]; Idle; Grad no_hints [] [-1; 1/2]] in
+    adagrad_cfg c (1/8) /\ adagrad_corr s (adagrad_init RI [1; -2]) /\ hist_ok (plain_ev c) (bs_t s) hist.
+  Proof.
+    cbn zeta. split; [|split].
+    - unfold adagrad_cfg, demo_cfg. cbn. repeat split; auto.
+    - unfold adagrad_corr, adagrad_init. cbn. auto.
+    - cbn. unfold plain_ev. cbn. repeat split; lia.
+  Qed.
+
+  Example graft_norm_transfer_step_hyps :
+    let c := demo_cfg 0 0 0 0 false (GAda 1 (1/8) false) in
+    (c_start c <= 10)%Z /\ c_graft c <> GNone /\ c_mom c = 0 /\ (c_decoupled c = false \/ c_wd c = 0).
+  Proof. cbn. repeat split; auto; try lia. discriminate. Qed.
+End Witnesses.
